@@ -1364,7 +1364,7 @@ def m_eq(e, args, info):
     if isinstance(a, (str, SymStr, FmtStr)):
         return str_eq(a, b)
     if isinstance(a, IdentV):
-        return str_eq(a.name, b.name)
+        return str_eq(a.name, b.name if isinstance(b, IdentV) else b)          # Ident == Ident, Ident == str
     if isinstance(a, Opq) and isinstance(b, Opq):
         return a.id == b.id
     if hasattr(a, 'name') and hasattr(b, 'name') and type(a) is type(b) and type(a).__name__ == 'LifetimeV':
